@@ -1125,7 +1125,9 @@ fn run_tb_case(case: &str) -> (String, String) {
         .map(|s| s.split_whitespace().collect::<Vec<_>>())
         .filter(|v| !v.is_empty())
         .collect();
-    if parts.first().and_then(|p| p.first()) == Some(&"tb") {
+    // `tbi …`: the same script in a shell started with the `interactive` option on (and `monitor` off)
+    let interactive = parts.first().and_then(|p| p.first()) == Some(&"tbi");
+    if parts.first().and_then(|p| p.first()).is_some_and(|w| *w == "tb" || *w == "tbi") {
         parts[0].remove(0);
         if parts[0].is_empty() {
             parts.remove(0);
@@ -1164,6 +1166,15 @@ fn run_tb_case(case: &str) -> (String, String) {
                 p.set_disposition(*n, Disposition::Ignore);
             }
             drop(st);
+            if interactive {
+                // what `yash_cli::startup::configure_environment` does for `-i` (with `monitor` off), done
+                // here because the dispositions inherited by the process must be in place first: the option,
+                // then the internal dispositions of the terminators
+                use yash_env::option::{Option as O, State as St};
+                env.options.set(O::Interactive, St::On);
+                let system = Rc::clone(&env.system);
+                let _ = env.traps.enable_internal_dispositions_for_terminators(&system).now_or_never();
+            }
             *cell2.borrow_mut() = Some((Rc::clone(state), env.main_pid));
         },
         |_, _| (),
@@ -1210,7 +1221,8 @@ fn run_tb_case(case: &str) -> (String, String) {
             let want: Vec<String> = conds
                 .iter()
                 .map(|c| {
-                    let ignored = matches!(c, Condition::Signal(n) if ign_set.contains(n));
+                    // "in a NON-interactive shell a signal ignored on entry can be neither trapped nor reset"
+                    let ignored = !interactive && matches!(c, Condition::Signal(n) if ign_set.contains(n));
                     format!("T:{}:{}", if ignored { "E" } else { a_canon.as_str() }, c.to_string(&sys))
                 })
                 .collect();
@@ -1350,6 +1362,7 @@ mod faulty {
     pub enum Prim {
         Mask(bool, Vec<Number>),
         Action(Number, Disposition),
+        Get(Number),
         Other(String),
     }
 
@@ -1473,7 +1486,14 @@ mod faulty {
 
     impl GetSigaction for Faulty {
         fn get_sigaction(&self, signal: Number) -> Result<Disposition, Errno> {
-            self.vs.get_sigaction(signal)
+            // recorded and failing on demand like the other two primitives (`peek_state` → `get_disposition`)
+            if self.fails() {
+                self.log.borrow_mut().push(Call { prim: Prim::Get(signal), ok: false, old: Disposition::Default });
+                return Err(Errno::EINVAL);
+            }
+            let d = self.vs.get_sigaction(signal)?;
+            self.log.borrow_mut().push(Call { prim: Prim::Get(signal), ok: true, old: d });
+            Ok(d)
         }
     }
 
@@ -1614,8 +1634,10 @@ fn run_sc(case: &str) -> (String, String, usize) {
             }
             ["peek", c] => {
                 let Some(cond) = cond_of(c) else { return bad() };
-                match traps.peek_state(&system, cond) {
-                    Ok(t) => show_ts(t),
+                let res = traps.peek_state(&system, cond).map(show_ts);
+                reported = Some(res.is_err());
+                match res {
+                    Ok(t) => t,
                     Err(_) => "errno".into(),
                 }
             }
@@ -1650,6 +1672,9 @@ fn run_sc(case: &str) -> (String, String, usize) {
                         fail = Some(format!("sigaction-on:{}", name_of(*n)));
                     }
                 }
+                Prim::Get(n) => {
+                    shown.push(if c.ok { format!("G:{}>{}", name_of(*n), show_disp(c.old)) } else { format!("G:{}!", name_of(*n)) });
+                }
                 Prim::Other(s) => shown.push(format!("?{s}{bang}")),
             }
         }
@@ -1665,6 +1690,7 @@ fn run_sc(case: &str) -> (String, String, usize) {
                     let sig = match &c.prim {
                         Prim::Action(n, _) => Some(*n),
                         Prim::Mask(_, v) => v.first().copied(),
+                        Prim::Get(n) => Some(*n),
                         _ => None,
                     };
                     if let Some(i) = sig.and_then(|n| CONDS.iter().position(|x| x.1 == Some(n))) {
@@ -1707,7 +1733,7 @@ fn run_sc(case: &str) -> (String, String, usize) {
 
 fn run_case(case: &str) -> (String, String, String) {
     let ws: Vec<&str> = case.split_whitespace().collect();
-    if ws.first() == Some(&"tb") {
+    if ws.first() == Some(&"tb") || ws.first() == Some(&"tbi") {
         let (o, v) = run_tb_case(case);
         return (o, v, String::new());
     }
@@ -2200,6 +2226,21 @@ fn main() {
         for tail in ["", " , T c3 INT , PC INT", " , P"] {
             emit_tb(format!("tb {pre}bg PC INT QUIT , R 78{tail}; R 1; PC INT QUIT"), &mut out);
         }
+    }
+    // (i) the same built-in in an INTERACTIVE shell (`tbi`: option `interactive` on, `monitor` off): the internal
+    //     dispositions of the terminators are installed at start-up, and `trap` overrides "ignored on entry"
+    //     (`override_ignore` = interactive) — the converse of the stickiness clause.  No INT/QUIT/TERM is sent and
+    //     no operand is invalid (an interactive shell's reaction to those belongs to the interactive loop).
+    for ig in ["", "ign INT; ", "ign USR1 TERM QUIT; ", "ign INT QUIT TERM HUP; "] {
+        for a in ["-", "E", "c1", "k2"] {
+            for ops in ["INT", "QUIT TERM", "USR1 INT HUP", "0 INT 15", "3 1"] {
+                emit_tb(format!("tbi {ig}T c9 USR2; T {a} {ops}; PC {ops}; R 77; K USR1; R 1; P"), &mut out);
+                emit_tb(format!("tbi {ig}T c9 USR2; T {a} {ops}; sub PC {ops} , T c3 {ops} , PC {ops}; R 1; PP"), &mut out);
+            }
+        }
+        emit_tb(format!("tbi {ig}P; PP; PC INT QUIT TERM; T c1 INT; T - INT; PC INT; cs P; R 1"), &mut out);
+        emit_tb(format!("tbi {ig}T c1 USR1; K USR1; R 1; T rUSR1.5 USR1; K USR1; R 2; R 3"), &mut out);
+        emit_tb(format!("tbi {ig}T c1 0; T c2 HUP; K HUP; R 1; X 3"), &mut out);
     }
     // (e') actions that deliver their own signal again while they run (once: they replace themselves
     //      first), entered at a command boundary and on the interrupting-`wait` path, alone and together
